@@ -60,6 +60,26 @@ def cmpImmSigned (s : State) (insn : Insn) : Option Outcome :=
   | 0x55 => some (rd s dst fun d => branch s insn.off (d != immS))
   | _ => none
 
+/-- atomic add as generated code performs it: `lock add` / `atomic_rmw` work at any alignment on x86-64, so there is no
+    alignment test (the interpreter refuses a misaligned one with an error; C18) -/
+def xaddAnyAlign (env : Env) (s : State) (addr : BitVec 64) (w : Nat) (v : BitVec 64) : Outcome :=
+  if checkMem s.mem env.allowed addr w then
+    match s.mem.readBytes? addr.toNat w with
+    | some bs =>
+      match s.mem.writeBytes? addr.toNat (leBytes (leValue bs + v.toNat) w) with
+      | some m => .next { s with mem := m }
+      | none => .fault
+    | none => .fault
+  else .err .oob s
+
+/-- the two atomic-add opcodes in generated code -/
+def xaddInsn (env : Env) (s : State) (insn : Insn) : Option Outcome :=
+  let ea (base : BitVec 64) : BitVec 64 := base + insn.off.signExtend 64
+  match insn.opc.toNat with
+  | 0xc3 => some (rd s insn.dst.toNat fun d => rd s insn.src.toNat fun x => xaddAnyAlign env s (ea d) 4 (zx32 (lo32 x)))
+  | 0xdb => some (rd s insn.dst.toNat fun d => rd s insn.src.toNat fun x => xaddAnyAlign env s (ea d) 8 x)
+  | _ => none
+
 /-- JIT local call: r6..r9 and the return address are saved, the frame pointer is left alone -/
 def jitCallLocal (s : State) (imm : BitVec 32) : Outcome :=
   rd s 6 fun r6 => rd s 7 fun r7 => rd s 8 fun r8 => rd s 9 fun r9 =>
@@ -77,9 +97,12 @@ def jitExec (env : Env) (s : State) (insn : Insn) : Outcome :=
   match cmpImmSigned s insn with
   | some o => o
   | none =>
-    if insn.opc = 0x85 ∧ insn.src = 1 then jitCallLocal s insn.imm
-    else if insn.opc = 0x95 then jitExit s
-    else Interp.exec env s insn
+    match xaddInsn env s insn with
+    | some o => o
+    | none =>
+      if insn.opc = 0x85 ∧ insn.src = 1 then jitCallLocal s insn.imm
+      else if insn.opc = 0x95 then jitExit s
+      else Interp.exec env s insn
 
 def jitStep (env : Env) (s : State) : Outcome :=
   if s.pc * 8 < env.prog.size then
@@ -113,7 +136,10 @@ def clifBoundsOk (m : Memory) (base : BitVec 64) (off : BitVec 16) (w : Nat) : B
 def clifExec (env : Env) (s : State) (insn : Insn) : Outcome :=
   match cmpImmSigned s insn with
   | some o => o
-  | none => Interp.exec { env with allowed := [] } s insn      -- no registered ranges in compiled code
+  | none =>
+    match xaddInsn { env with allowed := [] } s insn with
+    | some o => o
+    | none => Interp.exec { env with allowed := [] } s insn      -- no registered ranges in compiled code
 
 def clifStep (env : Env) (s : State) : Outcome :=
   if s.pc * 8 < env.prog.size then
